@@ -29,7 +29,15 @@ func DrawConfig(seed uint64, profile string) Config {
 		cfg.N = []int{1, 3, 4, 4}[r.Intn(4)]
 	}
 	cfg.Powers = make([]int64, cfg.N)
-	switch r.Intn(4) {
+	switch r.Intn(6) {
+	case 4: // unit powers: every validator matters at the quorum boundary
+		for i := range cfg.Powers {
+			cfg.Powers[i] = 1
+		}
+	case 5: // small unequal powers
+		for i := range cfg.Powers {
+			cfg.Powers[i] = int64(1 + r.Intn(3))
+		}
 	case 0: // equal
 		for i := range cfg.Powers {
 			cfg.Powers[i] = 10
@@ -92,6 +100,9 @@ func DrawConfig(seed uint64, profile string) Config {
 		cfg.ArmedCrashes = r.Chance(1, 2)
 	}
 	cfg.Partition = r.Chance(1, 4)
+	if hasByz && cfg.N >= 3 && r.Chance(1, 3) {
+		drawSplitAttack(&cfg, r)
+	}
 	cfg.ValChanges = r.Chance(1, 4)
 	cfg.Suffix = true
 	cfg.SuffixByzSilent = r.Chance(1, 2)
@@ -153,6 +164,9 @@ func (w *World) reachedTarget() bool {
 }
 
 func (w *World) partitioned() func(from, to int) bool {
+	if w.Cfg.Attack == "split" {
+		return func(from, to int) bool { return w.side(from) != w.side(to) }
+	}
 	if !w.Cfg.Partition {
 		return nil
 	}
@@ -285,6 +299,9 @@ func (w *World) nextAction() (simrt.Action, bool) {
 	case iByz:
 		v := vs[w.Rng.Intn(len(vs))]
 		id := byz[w.Rng.Intn(len(byz))]
+		if a, ok := w.splitByzAction(v, id); ok {
+			return a, true
+		}
 		h := v.rs.Height
 		r := v.rs.Round + int64(w.Rng.Intn(3)) - int64(w.Rng.Intn(2))
 		if r < 0 {
